@@ -26,6 +26,8 @@ open Pcore.Immut
 open Pcore.Mut
 #print axioms C08_mutable_results_partial
 #print axioms C08_mutable_alias_sites
-#print axioms C08_mutable_alias_changes
-#print axioms C08_mutable_alias_refutes
+#print axioms C08_mutable_alias_changes_before_fix
+#print axioms C08_mutable_alias_refutes_before_fix
 #print axioms C08_mutable_frozen_immutable
+#print axioms C08_mutable_sites_frozen
+#print axioms C08_mutable_impl
